@@ -64,7 +64,7 @@ pub struct AttrMap {
 pub fn attr_map(ix: &Index, rep: &mut Report) -> AttrMap {
     let ev = mk_ev(ix);
     let mut m = BTreeMap::new();
-    let get = ix.fns.iter().find(|(q, d)| q.ends_with("::get") && d.iter().any(|f| f.self_ty.as_deref() == Some("HelperAttributesForCompareOp"))).map(|(_, d)| d[0].clone());
+    let get = ix.fns.values().flatten().find(|f| f.self_ty.as_deref() == Some("HelperAttributesForCompareOp") && crate::misc::sig_text(f).contains("CompareOp") && crate::misc::sig_text(f).contains("->&HelperAttributeForCompareOp")).cloned();
     if let Some(f) = get {
         for (ti, tn) in TRAITS.iter().enumerate() {
             let outs = ev.call_fn(crate::eval::St::new(), &f, Some(crate::eval::Val::Sym { ty: crate::eval::Ty::Named("HelperAttributesForCompareOp".into(), vec![]), path: "cmp".into() }), vec![crate::eval::Val::Enum { ty: "CompareOp".into(), var: tn.to_string(), args: vec![] }]);
